@@ -94,7 +94,7 @@ def gen_config(rng, tier, flavor="db"):
         if cfg["ploidy"] == 1 and cfg["initial"] == "dup_pairs":
             cfg["initial"] = "random"
         n_pos = len(cfg["n_alleles"])
-    if flavor in ("db", "cache") and rng.random() < 0.012:
+    if flavor in ("db", "cache") and rng.random() < 0.02:
         # rare long loci (beyond int8 / packed-key / table sizes): diploid, one or two reads, one iteration
         cfg["ploidy"] = rng.choice([2, 3, 3, 4])
         cfg["n_alleles"] = [rng.choice([2, 2, 2, 3]) for _ in range(rng.choice([23, 40, 70, 130, 140]))]
@@ -114,7 +114,9 @@ def gen_config(rng, tier, flavor="db"):
             cfg["initial"] = "truth_rows"
             cfg["n_reads"] = 4
             cfg["counts"] = "none"
-            cfg["steps"] = 2
+            cfg["steps"] = 3
+            cfg["p_recomb"] = cfg["p_partial"] = cfg["p_dosage"] = 1.0
+            cfg["n_intervals"] = rng.choice([None, 2, 2, 3, 3])
         n_pos = len(cfg["n_alleles"])
     if cfg["n_intervals"] is not None:
         cfg["n_intervals"] = max(1, min(cfg["n_intervals"], n_pos))
